@@ -70,7 +70,7 @@ def correspondence(payload):
 def search(payload):
     deep = payload.get("deep") or payload["tier"] == "thorough"
     n_values = 40 if deep else 12
-    fails, known_hits, n, worst = [], [], 0, (0, "")
+    fails, known_hits, n, worst, slow = [], [], 0, (0, ""), []
     for mode, genf, preds in (("true", generate_true, listed_true()), ("false", generate_false, listed_false())):
         for seed in range(3 if deep else 1):
             for p in preds:
@@ -89,6 +89,10 @@ def search(payload):
                         got += 1
                         continue
                     if kind == "stop":
+                        break
+                    if kind == "slow":          # wall clock ran out below the line budget: inconclusive, not a verdict
+                        slow.append(f"generate_{mode}({p!r}) value {i}")
+                        got += 1
                         break
                     fails.append({"p": repr(p), "generate": mode, "position": i,
                                   "what": ("spins: no value and no end of stream within the line-event budget" if kind == "spin" else f"internal error {v}"),
@@ -112,12 +116,13 @@ def search(payload):
     real = random.randint
     try:
         random.randint = lambda a, b: b
-        kind, v, lines = g.pull(generate_true(is_set_of_p(is_bool_p)), budget_lines=20000, seconds=2.0)
+        kind, v, lines = g.pull(generate_true(is_set_of_p(is_bool_p)), budget_lines=20000, seconds=30.0)
     finally:
         random.randint = real
     if kind == "spin":
         known_hits.append({"id": 15, "p": "is_set_of_p(is_bool_p) with random.randint pinned to its upper limit"})
     return {"evaluations": n, "failures": fails[:5], "known_hits": known_hits, "worst_line_events_for_one_next": {"lines": worst[0], "where": worst[1]},
+            "inconclusive_wall_clock": slow[:10],
             "samples": [{"p": "ge_p(sys.maxsize + 1)", "first": repr(g.take(generate_true(ge_p(sys.maxsize + 1)), 2)[0])}]}
 
 
